@@ -86,23 +86,31 @@ func (p *poller) addConn(c *Conn) error {
 	} else {
 		p.g.onUDPListen(c)
 	}
+	// Register under the connection mutex: if the connection was closed inside
+	// OnOpen (or concurrently), its descriptor number may already belong to
+	// another connection and must not be touched any more.
+	c.mux.Lock()
+	if c.closed {
+		c.mux.Unlock()
+		return net.ErrClosed
+	}
 	p.g.connsUnix[fd] = c
 	err := p.addRead(fd)
-	if err != nil {
-		p.g.connsUnix[fd] = nil
-		_ = c.closeWithError(err)
-		return err
-	}
-	// Data written before the fd was registered (inside OnOpen, or by another
-	// goroutine that already holds the Conn) may have left a backlog; its attempt
-	// to set the writing event failed because the fd was unknown to epoll then.
-	c.mux.Lock()
-	if !c.closed && len(c.writeList) > 0 {
+	if err == nil && len(c.writeList) > 0 {
+		// Data written before the fd was registered (inside OnOpen, or by another
+		// goroutine that already holds the Conn) left a backlog; its attempt to
+		// set the writing event failed because the fd was unknown to epoll then.
 		c.isWAdded = false
 		c.modWrite()
 	}
+	if err != nil {
+		p.g.connsUnix[fd] = nil
+	}
 	c.mux.Unlock()
-	return nil
+	if err != nil {
+		_ = c.closeWithError(err)
+	}
+	return err
 }
 
 // add the connection to poller and handle its io events.
